@@ -140,7 +140,6 @@ func cmdRun(args []string) {
 	fmt.Printf("%d obligations, %d not discharged, %.1fs\n", len(obs), bad, time.Since(t0).Seconds())
 }
 
-
 // inPlaceClosure: an anonymous function that is only called or deferred
 // directly where it is created; it is verified inside its parent.
 func inPlaceClosure(fn *ssa.Function) bool {
